@@ -86,7 +86,7 @@ def task_src_reused_containers(t):
     return "%s\n%s(\n  %s,\n)\n" % ("\n".join(pre), k, ",\n  ".join(parts))
 
 
-def write_project(root, tasks, disable_git=True, extra_files=None, reused_containers=False):
+def write_project(root, tasks, disable_git=True, extra_files=None, reused_containers=False, cond_prefix=None):
     os.makedirs(root, exist_ok=True)
     with open(os.path.join(root, "cond_config.toml"), "w") as f:
         if disable_git:
@@ -98,6 +98,7 @@ def write_project(root, tasks, disable_git=True, extra_files=None, reused_contai
         d = os.path.join(root, pkg)
         os.makedirs(d, exist_ok=True)
         with open(os.path.join(d, "COND"), "w") as f:
+            f.write((cond_prefix or {}).get(pkg, ""))
             if reused_containers:
                 f.write("_ARGS, _OPTS, _DEPS = [], {}, []\n" + "\n".join(task_src_reused_containers(t) for t in ts)
                         + "\n_ARGS[:] = ['left-over', 'of', 'the', 'loop']\n_OPTS['left-over'] = True\n_DEPS[:] = []\n")
